@@ -9,6 +9,7 @@ correspondence on the property's finite universe, where reflexivity, transitivit
 ancestors and unrelated classes are decided by exhaustive enumeration of the implementation's answers.
 -/
 import MambaVerif.Lemmas.TyBasic
+import MambaVerif.Lemmas.TyUnion
 
 namespace MV.C20
 
@@ -200,6 +201,59 @@ def tIntOrFloat : NameT := .mk false [.mk false true "Int" [], .mk false true "F
 example : isSuperset tbl2 8 tFloat tInt = .ok true ∧ isSuperset tbl2 8 tInt tFloat = .ok false
     ∧ isSuperset tbl2 8 tFloat tIntOrFloat = .ok true ∧ isSuperset tbl2 8 tInt tIntOrFloat = .ok false := by
   decide +kernel
+
+/-! ### forming unions (`Name::union`) — as sets of members, for names without a `None` member
+
+(`…_partial`: the branch of `Name::union` that folds a `None` member into nullable members is not covered by
+these theorems; it is decided on the universe by the oracle's law `union-commutative` and by the model
+correspondence on `tyunion`.) -/
+
+/-- **union_comm_partial**: `A ∪ B` and `B ∪ A` have the same members -/
+theorem union_comm_partial (a b : NameT) (h : NoNull (a.names ++ b.names)) :
+    SameKeys (a.union b).names (b.union a).names := by
+  rw [union_names_of_noNull a b h, union_names_of_noNull b a (noNull_append_comm h)]
+  exact (dedupT_keys _).trans ((sameKeys_append_comm a.names b.names).trans (dedupT_keys _).symm)
+
+/-- **union_idem_partial**: `A ∪ A` has the members of `A` -/
+theorem union_idem_partial (a : NameT) (h : NoNull a.names) : SameKeys (a.union a).names a.names := by
+  have h2 : NoNull (a.names ++ a.names) := fun x hx => h x ((List.mem_append.mp hx).elim id id)
+  rw [union_names_of_noNull a a h2]
+  refine (dedupT_keys _).trans ?_
+  intro k
+  constructor
+  · rintro ⟨z, hz, hzk⟩
+    exact ⟨z, (List.mem_append.mp hz).elim id id, hzk⟩
+  · rintro ⟨z, hz, hzk⟩
+    exact ⟨z, List.mem_append.mpr (Or.inl hz), hzk⟩
+
+/-- **union_assoc_partial**: `(A ∪ B) ∪ C` and `A ∪ (B ∪ C)` have the same members -/
+theorem union_assoc_partial (a b c : NameT) (h : NoNull (a.names ++ b.names ++ c.names)) :
+    SameKeys ((a.union b).union c).names (a.union (b.union c)).names := by
+  have hab : NoNull (a.names ++ b.names) := fun x hx => h x (List.mem_append.mpr (Or.inl hx))
+  have hbc : NoNull (b.names ++ c.names) := fun x hx => h x (by
+    rcases List.mem_append.mp hx with h' | h'
+    · exact List.mem_append.mpr (Or.inl (List.mem_append.mpr (Or.inr h')))
+    · exact List.mem_append.mpr (Or.inr h'))
+  have e1 := union_names_of_noNull a b hab
+  have e2 := union_names_of_noNull b c hbc
+  have h1 : NoNull ((a.union b).names ++ c.names) := by
+    intro x hx
+    rcases List.mem_append.mp hx with h' | h'
+    · rw [e1] at h'; exact hab x (dedupT_sub _ x h')
+    · exact h x (List.mem_append.mpr (Or.inr h'))
+  have h2 : NoNull (a.names ++ (b.union c).names) := by
+    intro x hx
+    rcases List.mem_append.mp hx with h' | h'
+    · exact h x (List.mem_append.mpr (Or.inl (List.mem_append.mpr (Or.inl h'))))
+    · rw [e2] at h'; exact hbc x (dedupT_sub _ x h')
+  rw [union_names_of_noNull _ c h1, union_names_of_noNull a _ h2, e1, e2]
+  refine (dedupT_keys _).trans (SameKeys.trans ?_ (dedupT_keys _).symm)
+  have l : SameKeys (dedupT (a.names ++ b.names) ++ c.names) (a.names ++ b.names ++ c.names) :=
+    sameKeys_append_congr (dedupT_keys _) (SameKeys.refl _)
+  have r : SameKeys (a.names ++ dedupT (b.names ++ c.names)) (a.names ++ (b.names ++ c.names)) :=
+    sameKeys_append_congr (SameKeys.refl _) (dedupT_keys _)
+  rw [List.append_assoc] at l
+  exact l.trans r.symm
 
 /-- non-vacuity of the transitivity theorem: a chain through a union on a three-level hierarchy -/
 def tbl3 : Tbl := [⟨"A", [], []⟩, ⟨"B", [], [.mk false true "A" []]⟩, ⟨"C", [], [.mk false true "B" []]⟩, ⟨"None", [], []⟩]
